@@ -58,6 +58,14 @@ impl TwoFloat {
     /// Creates a new `TwoFloat` by adding two `f64` values using Algorithm 2
     /// from Joldes et al. (2017).
     pub fn new_add(a: f64, b: f64) -> Self {
+        // 2Sum overflows spuriously in `s - b` when the first operand is the larger one and has
+        // magnitude f64::MAX; with the larger operand second every intermediate stays finite,
+        // and the result (the rounded sum and its exact error) does not depend on the order.
+        let (a, b) = if libm::fabs(a) > libm::fabs(b) {
+            (b, a)
+        } else {
+            (a, b)
+        };
         let s = a + b;
         let aa = s - b;
         let bb = s - aa;
